@@ -821,7 +821,10 @@ class H3Connection:
                 headers = self._decode_headers(stream.stream_id, None)
             else:
                 frame_buf = Buffer(data=frame_data)
-                push_id = frame_buf.pull_uint_var()
+                try:
+                    push_id = frame_buf.pull_uint_var()
+                except BufferReadError:
+                    raise FrameError("PUSH_PROMISE frame is truncated")
                 stream.blocked_push_id = push_id
                 headers = self._decode_headers(
                     stream.stream_id, frame_data[frame_buf.tell() :]
